@@ -16,8 +16,31 @@ from typing import Dict, List, NamedTuple, Optional, Set, Tuple
 from .program import FuncInfo, Program, dotted, norm
 from .util import assignments_to
 
-HOOK_RECEIVERS = {"plugin", "plug", "p"}
-OBJ_RECEIVERS = {"actor", "child", "child_interpreter", "self.parent", "candidate"}
+# calls on other objects that are operations of the algorithm, recognised by what they are, not by the name of the variable:
+#   <local>.on_*(...)                       a plugin hook
+#   <local or self.parent>.start/stop/send/get_persisted_snapshot(...)   an operation on another interpreter (not on a thread / timer / event)
+OBJ_METHODS = {"start", "stop", "send", "get_persisted_snapshot"}
+_NOT_INTERPRETERS = ("Thread", "Timer", "Event(", "Lock", "Queue", "create_task", "ensure_future", "get_event_loop", "get_running_loop")
+
+
+def _is_hook_receiver(func: FuncInfo, recv: Optional[str]) -> bool:
+    return recv is not None and "." not in recv and recv not in ("self", "cls")
+
+
+def _is_obj_receiver(func: FuncInfo, recv: Optional[str]) -> bool:
+    if recv == "self.parent":
+        return True
+    if recv is None or "." in recv or recv in ("self", "cls", "asyncio", "threading", "time", "json", "copy", "inspect", "logging", "logger"):
+        return False
+    f: Optional[FuncInfo] = func
+    while f is not None:
+        for x in ast.walk(f.node):
+            if isinstance(x, (ast.Assign, ast.AnnAssign)) and getattr(x, "value", None) is not None:
+                tg = x.targets[0] if isinstance(x, ast.Assign) else x.target
+                if isinstance(tg, ast.Name) and tg.id == recv and any(k in ast.unparse(x.value) for k in _NOT_INTERPRETERS):
+                    return False
+        f = f.parent
+    return True
 SKIP_CALLS = {"logger", "logging"}
 
 
@@ -114,6 +137,14 @@ class Canon:
                 name = n.func.attr if isinstance(n.func, ast.Attribute) else (n.func.id if isinstance(n.func, ast.Name) else None)
                 if name and len(n.args) == 1 and not n.keywords and me._await_identity(name):
                     return self.visit(n.args[0])
+                if name in ("startswith", "endswith") and len(n.args) == 1 and isinstance(n.args[0], ast.Tuple) and \
+                        all(isinstance(e, ast.Constant) and isinstance(e.value, str) for e in n.args[0].elts):
+                    # s.startswith(('spawn_', 'spawn_blocking_'))  is  s.startswith('spawn_'): an alternative that another one subsumes adds nothing
+                    vals = [e.value for e in n.args[0].elts]
+                    sub = (lambda a_, b_: a_.startswith(b_)) if name == "startswith" else (lambda a_, b_: a_.endswith(b_))
+                    keep = [v for i, v in enumerate(vals) if not any(j != i and sub(v, w) and (w != v or j < i) for j, w in enumerate(vals))]
+                    arg = ast.Constant(value=keep[0]) if len(keep) == 1 else ast.Tuple(elts=[ast.Constant(value=v) for v in sorted(keep)], ctx=ast.Load())
+                    n = ast.Call(func=n.func, args=[arg], keywords=[])
                 return self.generic_visit(n)
 
             def visit_Name(self, n):
@@ -192,9 +223,18 @@ class Canon:
             except SyntaxError:
                 return ast.Name(id=mapped, ctx=ast.Load())
         if nm in self.loopvars and nm not in self._stack and depth < 4:
+            # the loop this use stands in (a name may be the variable of several loops of one function)
+            it_expr = self.loopvars[nm]
+            try:
+                for a_ in self._anc(getattr(n, "_orig", n)):
+                    if isinstance(a_, (ast.For, ast.AsyncFor)) and any(isinstance(t_, ast.Name) and t_.id == nm for t_ in ast.walk(a_.target)):
+                        it_expr = a_.iter
+                        break
+            except Exception:
+                pass
             self._stack.add(nm)
             try:
-                it = self.text(self.loopvars[nm], depth + 1)
+                it = self.text(_strip_copy(it_expr), depth + 1)
             finally:
                 self._stack.discard(nm)
             return ast.Name(id=f"ELEM[{it}]", ctx=ast.Load())
@@ -276,21 +316,151 @@ def _always_exits(body: List[ast.stmt]) -> bool:
     return False
 
 
-def _guard_atoms(cn, test: ast.AST, truth: bool) -> List[str]:
-    """The guard contributed by ``test`` being *truth*, as a list of canonical signed atoms: conjunctions (and negated
-    disjunctions) are split, a leading ``not`` becomes the sign - so ``if a and b:`` / ``if not (not a or not b):`` / nested
-    ``if a: if b:`` and the else-branch of ``if not a or not b:`` all carry the same guard."""
+def _signed(a: ast.AST, pol: bool, known: Optional[Set[str]] = None) -> List[str]:
+    """Signed atoms of an already canonical expression.  *known*: atoms that hold where the expression is evaluated - conditional
+    expressions whose test is decided by them are replaced by the branch taken (``(f(x) if c else None) is not None`` under ``c``)."""
     from .cfg import split_atoms
-    out = []
-    for a, pol in split_atoms(test, truth):
-        while isinstance(a, ast.UnaryOp) and isinstance(a.op, ast.Not):
-            a, pol = a.operand, not pol
+    known = set(known or ())
+    out_: List[str] = []
+    for a, pol in split_atoms(a, pol):
+        if known:
+            a = _simplify(a, known)
+        while True:
+            if isinstance(a, ast.UnaryOp) and isinstance(a.op, ast.Not):
+                a, pol = a.operand, not pol
+            elif isinstance(a, ast.Call) and isinstance(a.func, ast.Name) and a.func.id == "bool" and len(a.args) == 1 and not a.keywords:
+                a = a.args[0]            # bool(x) as a condition is x
+            else:
+                break
+        if isinstance(a, ast.BoolOp) and ((isinstance(a.op, ast.And) and pol) or (isinstance(a.op, ast.Or) and not pol)):
+            got = _signed(a, pol, known)      # became splittable after unwrapping
+            out_.extend(got)
+            known.update(got)
+            continue
+        if isinstance(a, ast.BoolOp):
+            # what is left is a disjunction: a true ``x or y`` / a false ``x and y``.  One spelling for both (De Morgan):
+            # the negated conjunction of the negated parts, parts sorted
+            parts: List[str] = []
+            k2 = set(known)
+            for v in a.values:
+                got = _signed(v, not isinstance(a.op, ast.Or), k2)
+                parts.extend(got)
+                if isinstance(a.op, ast.And):
+                    k2.update(got)        # x and y: y is evaluated only where x held
+            out_.append("-&(" + ", ".join(sorted(parts)) + ")")
+            continue
         if isinstance(a, ast.Compare) and len(a.ops) == 1 and isinstance(a.ops[0], (ast.NotIn, ast.IsNot, ast.NotEq)):
             flip = {ast.NotIn: ast.In, ast.IsNot: ast.Is, ast.NotEq: ast.Eq}[type(a.ops[0])]
             a = ast.Compare(left=a.left, ops=[flip()], comparators=a.comparators)
             pol = not pol
-        out.append(("+" if pol else "-") + cn.text(a))
+        if isinstance(a, ast.Compare) and len(a.ops) == 1 and isinstance(a.ops[0], (ast.LtE, ast.GtE)):
+            # x <= 1  is  not (x > 1)
+            flip = {ast.LtE: ast.Gt, ast.GtE: ast.Lt}[type(a.ops[0])]
+            a = ast.Compare(left=a.left, ops=[flip()], comparators=a.comparators)
+            pol = not pol
+        atom = ("+" if pol else "-") + ast.unparse(a)
+        out_.append(atom)
+        if pol or True:
+            known.add(atom)           # later conjuncts are evaluated only if this one held
+    return out_
+
+
+def _simplify(e: ast.AST, known: Set[str]) -> ast.AST:
+    """Replace ``X if C else Y`` by X (or Y) where the atoms of C (of not C) are all among *known*."""
+    if not any(isinstance(x, ast.IfExp) for x in ast.walk(e)):
+        return e
+
+    class S(ast.NodeTransformer):
+        def visit_IfExp(self, n):
+            n = self.generic_visit(n)
+            t_atoms = _signed(n.test, True)
+            if t_atoms and all(t in known for t in t_atoms):
+                return n.body
+            f_atoms = _signed(n.test, False)
+            if f_atoms and all(t in known for t in f_atoms):
+                return n.orelse
+            return n
+    return S().visit(copy.deepcopy(e))
+
+
+def _guard_atoms(cn, test: ast.AST, truth: bool, known=None) -> List[str]:
+    """The guard contributed by ``test`` being *truth*, as a list of canonical signed atoms: conjunctions (and negated
+    disjunctions) are split, a leading ``not`` becomes the sign - so ``if a and b:`` / ``if not (not a or not b):`` / nested
+    ``if a: if b:`` and the else-branch of ``if not a or not b:`` all carry the same guard.  Canonical form first (a condition
+    that was given a name - ``has_transient = bool(sel) and any(...)`` - is that condition), then split into signed atoms."""
+    return _signed(cn._c(cn._copy(test), 0, {}), truth, known)
+
+
+def _exit_conjs(cn, s: ast.If, known, depth: int = 0) -> List[List[str]]:
+    """Conjunctions of atoms under which the ``if`` statement *s* leaves the enclosing block (return / raise / continue / break),
+    including exits of ``if`` statements nested in its branches:  if a: (x = f(); if b: ...; continue)  leaves under  a and b."""
+    out: List[List[str]] = []
+    pos, neg = _guard_atoms(cn, s.test, True, known), _guard_atoms(cn, s.test, False, known)
+    for branch, cond in ((s.body, pos), (s.orelse, neg)):
+        if not branch:
+            continue
+        if _always_exits(branch):
+            if not isinstance(branch[-1], ast.Raise):       # an error path says nothing about the normal continuation
+                out.append(list(cond))
+            continue
+        if depth < 2:
+            for st in branch:
+                if isinstance(st, ast.If):
+                    for cj in _exit_conjs(cn, st, set(known or ()) | set(cond), depth + 1):
+                        out.append(list(cond) + cj)
     return out
+
+
+def _strip_copy(e: ast.AST) -> ast.AST:
+    """list(X) / tuple(X) taken only to iterate over a snapshot: the elements are X's."""
+    while isinstance(e, ast.Call) and isinstance(e.func, ast.Name) and e.func.id in ("list", "tuple") and len(e.args) == 1 and not e.keywords:
+        e = e.args[0]
+    return e
+
+
+def _iter_text(cn, it: ast.AST) -> str:
+    return cn.text(_strip_copy(it))
+
+
+def _single_value(func: FuncInfo, name: str) -> Optional[ast.AST]:
+    vals = [getattr(a, "value", None) for a in assignments_to(func, name)]
+    vals = [v for v in vals if v is not None]
+    return vals[0] if len(vals) == 1 and len(assignments_to(func, name)) == 1 else None
+
+
+def _first_match(cn, func: FuncInfo, test: ast.AST):
+    """``NAME is not SENTINEL`` where NAME = next((.. for .. in X if P), SENTINEL): (NAME, generator)."""
+    if not (isinstance(test, ast.Compare) and len(test.ops) == 1 and isinstance(test.ops[0], ast.IsNot) and isinstance(test.left, ast.Name)):
+        return None
+    v = _single_value(func, test.left.id)
+    if not (isinstance(v, ast.Call) and isinstance(v.func, ast.Name) and v.func.id == "next" and len(v.args) == 2 and isinstance(v.args[0], ast.GeneratorExp)):
+        return None
+    if ast.unparse(v.args[1]) != ast.unparse(test.comparators[0]):
+        return None
+    gen = v.args[0]
+    if len(gen.generators) != 1 or gen.generators[0].is_async:
+        return None
+    tnames = {t.id for t in ast.walk(gen.generators[0].target) if isinstance(t, ast.Name)}
+    if not (isinstance(gen.elt, ast.Name) and gen.elt.id in tnames):
+        return None
+    return test.left.id, gen
+
+
+def _selected_list(cn, func: FuncInfo, it: ast.AST):
+    """The comprehension behind ``for k in hits`` when hits = [k for k, v in X if P] (k one of the comprehension's own variables)."""
+    if not isinstance(it, ast.Name):
+        return None
+    v = _single_value(func, it.id)
+    if not isinstance(v, (ast.ListComp, ast.GeneratorExp)) or len(v.generators) != 1 or v.generators[0].is_async:
+        return None
+    tnames = {t.id for t in ast.walk(v.generators[0].target) if isinstance(t, ast.Name)}
+    if not (isinstance(v.elt, ast.Name) and v.elt.id in tnames):
+        return None
+    # the list must be used for this loop only
+    uses = [x for x in ast.walk(func.node) if isinstance(x, ast.Name) and x.id == it.id and isinstance(x.ctx, ast.Load)]
+    if len(uses) != 1:
+        return None
+    return v
 
 
 def extract(program: Program, func: FuncInfo, renames: Dict[str, str],
@@ -301,7 +471,19 @@ def extract(program: Program, func: FuncInfo, renames: Dict[str, str],
     out: List[Record] = []
     inline = inline or {}
 
+    class _CN:
+        """cn.text with conditional expressions decided by the guards in force replaced by the branch taken."""
+        def __init__(self, guards):
+            self.known = set(guards)
+
+        def text(self, e):
+            c_ = cn._c(cn._copy(e), 0, {})
+            if self.known and any(isinstance(x, ast.IfExp) for x in ast.walk(c_)):
+                c_ = _simplify(c_, self.known)
+            return ast.unparse(c_)
+
     def ops_of(node: ast.AST, guards, loops):
+        cg = _CN(guards)
         calls = [x for x in ast.walk(node) if isinstance(x, ast.Call)]
         calls.sort(key=lambda c: (c.lineno, c.col_offset))
         for c in calls:
@@ -319,36 +501,73 @@ def extract(program: Program, func: FuncInfo, renames: Dict[str, str],
                         for r in sub:
                             out.append(Record(r.op, r.args, tuple(guards) + r.guards, tuple(loops) + r.loops, r.line))
                         continue
-                    args = tuple(cn.text(a) for a in c.args) + tuple(f"{k.arg}={cn.text(k.value)}" for k in c.keywords)
+                    args = tuple(cg.text(a) for a in c.args) + tuple(f"{k.arg}={cg.text(k.value)}" for k in c.keywords)
                     out.append(Record(f"self.{name}", args, tuple(guards), tuple(loops), c.lineno))
-                elif recv in HOOK_RECEIVERS and fn.attr.startswith("on_"):
-                    out.append(Record(f"hook:{fn.attr}", tuple(cn.text(a) for a in c.args[1:]), tuple(guards), tuple(loops), c.lineno))
-                elif recv in OBJ_RECEIVERS:
-                    out.append(Record(f"obj.{fn.attr}", tuple(cn.text(a) for a in c.args), tuple(guards), tuple(loops), c.lineno))
+                elif fn.attr.startswith("on_") and _is_hook_receiver(func, recv):
+                    out.append(Record(f"hook:{fn.attr}", tuple(cg.text(a) for a in c.args[1:]), tuple(guards), tuple(loops), c.lineno))
+                elif fn.attr in OBJ_METHODS and _is_obj_receiver(func, recv):
+                    out.append(Record(f"obj.{fn.attr}", tuple(cg.text(a) for a in c.args), tuple(guards), tuple(loops), c.lineno))
                 elif recv is not None and recv.startswith("self.") and fn.attr in _MUT:
-                    out.append(Record(f"mut:{recv}.{fn.attr}", tuple(cn.text(a) for a in c.args), tuple(guards), tuple(loops), c.lineno))
+                    out.append(Record(f"mut:{recv}.{fn.attr}", tuple(cg.text(a) for a in c.args), tuple(guards), tuple(loops), c.lineno))
                 elif recv is not None and recv.startswith("self.") and recv.count(".") >= 1 and fn.attr not in ("get", "items", "values", "keys", "copy", "startswith"):
-                    out.append(Record(f"call:{recv}.{fn.attr}", tuple(cn.text(a) for a in c.args), tuple(guards), tuple(loops), c.lineno))
+                    out.append(Record(f"call:{recv}.{fn.attr}", tuple(cg.text(a) for a in c.args), tuple(guards), tuple(loops), c.lineno))
             elif isinstance(fn, ast.Name) and fn.id in func.nested:
                 out.append(Record(f"closure:{fn.id}", (), tuple(guards), tuple(loops), c.lineno))
 
-    def walk(stmts, guards, loops):
+    def walk(stmts, guards, loops, plain=False):
+        # plain: every enclosing statement up to the function is an ``if`` / ``with`` - there a bare ``return`` says nothing that
+        # the guards of the statements after it do not say (``if c: return; X``  is  ``if not c: X``)
         guards = list(guards)
         for s in stmts:
             if isinstance(s, ast.Expr) and isinstance(s.value, ast.Constant):
                 continue
             if isinstance(s, ast.If):
-                pos, neg = _guard_atoms(cn, s.test, True), _guard_atoms(cn, s.test, False)
+                fm = _first_match(cn, func, s.test)
+                if fm is not None and not s.orelse:
+                    # k = next((k for k, v in X if P), S); if k is not S: OPS   is   for k, v in X: if P: OPS; break
+                    nm, comp = fm
+                    gen = comp.generators[0]
+                    for t_ in ast.walk(gen.target):
+                        if isinstance(t_, ast.Name):
+                            cn.loopvars[t_.id] = gen.iter
+                    cn.loopvars[nm] = gen.iter
+                    g2 = list(guards)
+                    for cnd in gen.ifs:
+                        g2 += _guard_atoms(cn, cnd, True)
+                    walk(s.body, g2, loops + [_iter_text(cn, gen.iter)], False)
+                    continue
+                pos, neg = _guard_atoms(cn, s.test, True, guards), _guard_atoms(cn, s.test, False, guards)
                 ops_of(s.test, guards, loops)
-                walk(s.body, guards + pos, loops)
-                walk(s.orelse, guards + neg, loops)
+                walk(s.body, guards + pos, loops, plain)
+                walk(s.orelse, guards + neg, loops, plain)
                 if _always_exits(s.body) and not s.orelse:
                     guards = guards + neg
                 elif s.orelse and _always_exits(s.orelse) and not _always_exits(s.body):
                     guards = guards + pos
+                elif not (_always_exits(s.body) and _always_exits(s.orelse)):
+                    # exits nested deeper:  if a: (c = f(); if c: ...; continue)   - what follows runs under  not (a and c),
+                    # exactly as after the flattened  if a and c: ...; continue
+                    for cj in _exit_conjs(cn, s, guards):
+                        if len(cj) > 1:
+                            guards = guards + ["-&(" + ", ".join(sorted(cj)) + ")"]
             elif isinstance(s, (ast.For, ast.AsyncFor)):
+                sel = _selected_list(cn, func, s.iter)
+                if sel is not None and isinstance(s.target, ast.Name):
+                    # hits = [k for k, v in X if P]; for k in hits: OPS   is   for k, v in list(X): if P: OPS
+                    gen = sel.generators[0]
+                    for t_ in ast.walk(gen.target):
+                        if isinstance(t_, ast.Name):
+                            cn.loopvars[t_.id] = gen.iter
+                    cn.loopvars[s.target.id] = gen.iter
+                    s._twin_iter = gen.iter
+                    g2 = list(guards)
+                    for cnd in gen.ifs:
+                        g2 += _guard_atoms(cn, cnd, True)
+                    ops_of(gen.iter, guards, loops)
+                    walk(s.body, g2, loops + [_iter_text(cn, gen.iter)])
+                    continue
                 ops_of(s.iter, guards, loops)
-                walk(s.body, guards, loops + [cn.text(s.iter)])
+                walk(s.body, guards, loops + [_iter_text(cn, s.iter)])
             elif isinstance(s, ast.While):
                 ops_of(s.test, guards, loops)
                 walk(s.body, guards + _guard_atoms(cn, s.test, True), loops + ["while"])
@@ -362,7 +581,7 @@ def extract(program: Program, func: FuncInfo, renames: Dict[str, str],
                 walk(s.orelse, guards, loops)
                 walk(s.finalbody, guards + ["+finally"], loops)
             elif isinstance(s, (ast.With, ast.AsyncWith)):
-                walk(s.body, guards, loops)
+                walk(s.body, guards, loops, plain)
             elif isinstance(s, (ast.FunctionDef, ast.AsyncFunctionDef, ast.ClassDef)):
                 continue
             elif isinstance(s, ast.Raise):
@@ -373,6 +592,8 @@ def extract(program: Program, func: FuncInfo, renames: Dict[str, str],
             elif isinstance(s, ast.Return):
                 if s.value is not None:
                     ops_of(s.value, guards, loops)
+                if plain and (s.value is None or (isinstance(s.value, ast.Constant) and s.value.value is None)):
+                    continue
                 out.append(Record("return", (), tuple(guards), tuple(loops), s.lineno))
             elif isinstance(s, (ast.Assign, ast.AnnAssign, ast.AugAssign)):
                 tgts = s.targets if isinstance(s, ast.Assign) else [s.target]
@@ -390,7 +611,7 @@ def extract(program: Program, func: FuncInfo, renames: Dict[str, str],
                         out.append(Record(f"del:{cn.text(t.value)}", (), tuple(guards), tuple(loops), s.lineno))
             else:
                 ops_of(s, guards, loops)
-    walk(func.node.body, [], [])
+    walk(func.node.body, [], [], True)
     return out
 
 
@@ -467,7 +688,7 @@ def _compare(A: List[Record], B: List[Record]) -> List[Diff]:
     for i, r in enumerate(onlyA):
         for j, q in enumerate(onlyB):
             if q.op == r.op:
-                score = (q.args == r.args) * 4 + (q.guards == r.guards) * 2 + (q.loops == r.loops) + len(set(q.guards) & set(r.guards)) / 100.0
+                score = (q.args == r.args) * 4 + (q.guards == r.guards) * 2 + (q.loops == r.loops) + len(set(q.guards) & set(r.guards)) / 100.0 - len(set(q.guards) ^ set(r.guards)) / 1000.0
                 cands.append((score, i, j))
     for score, i, j in sorted(cands, key=lambda t: (-t[0], t[1], t[2])):
         if i in usedA or j in usedB:
